@@ -526,6 +526,11 @@ pub struct ChildObs {
 pub const STDIN_IS_A_DIRECTORY: &[u8] = b"\0<stdin is a directory>";
 
 pub fn run_child(bin: &str, args: &[String], input: &[u8], mode: OutMode) -> std::io::Result<ChildObs> {
+    run_child_env(bin, args, input, mode, &[])
+}
+
+/// `run_child` with arguments that need not be text and extra environment variables for the child
+pub fn run_child_env<A: AsRef<std::ffi::OsStr>>(bin: &str, args: &[A], input: &[u8], mode: OutMode, env: &[(&str, String)]) -> std::io::Result<ChildObs> {
     use std::os::fd::{FromRawFd, OwnedFd};
     use std::os::unix::process::ExitStatusExt;
     use std::process::{Command, Stdio};
@@ -538,6 +543,9 @@ pub fn run_child(bin: &str, args: &[String], input: &[u8], mode: OutMode) -> std
         cmd.args(args).stdin(Stdio::piped()).stderr(Stdio::piped());
     }
     cmd.env("RUST_BACKTRACE", "0");
+    for (k, v) in env {
+        cmd.env(k, v);
+    }
     match mode {
         OutMode::Pipe => {
             cmd.stdout(Stdio::piped());
